@@ -40,12 +40,16 @@ MANIFEST = {
             'application packets on the wire followed by those held back equal the submissions in order, so '
             'nothing is lost, duplicated or reordered (deferred_fifo); every packet is sealed under the epoch '
             'begun by the last NEWKEYS before it (keys_fresh); the session id never changes (session_id_constant). '
+            'For the PAIR, over every interleaving of sends, limit expiries on both sides and deliveries in both '
+            'directions: the next packet always meets the keys the receiver holds '
+            '(receiver_epoch_matches_next_packet), neither endpoint ever fails (rekey_never_fails: simulation by '
+            'a 23-state control abstraction whose closure the kernel checks), the handshake cannot stall '
+            '(rekey_completes_when_drained) and at most three kex messages are in flight per direction. '
             'Tied to the code by a scripted live pair with per-connection virtual clocks whose wire type sequences '
             'the two-endpoint model must reproduce, and by busy sessions with byte-triggered rekeys.',
     'note': 'key material symbolic (epochs); the abstract exchange has two messages (INIT/REPLY) like ECDH; '
-            'two-party convergence (no MAC failure under every interleaving) is proved for each endpoint\'s own '
-            'bookkeeping and validated on the composition by correspondence, not by a global theorem; GSS and '
-            'group-exchange (4-message) methods not in the model',
+            'the global theorems are about the two-message abstract exchange; GSS and group-exchange '
+            '(4-message) methods are not in the model',
     'technique': 'Lean 4 proof by invariants over event sequences + scripted differential correspondence of a '
                  'two-endpoint model against a live pair',
 }
